@@ -221,6 +221,8 @@ def run_pbt_shards(prop, bins, n_total, size, shards, tier, extra_env=None, prop
                 with open(stats['fail_case']) as f:
                     merged['fails'].append(dict(text=f.read(), msg=stats['fail_msg'], crash=False))
                 os.remove(stats['fail_case'])
+        if rc != 0 and stats and not stats['ok'] and not (stats.get('fail_case')):
+            merged['fails'].append(dict(text=None, msg='rapidcheck reported a failure the harness did not record: ' + '\n'.join(out.splitlines()[-25:])[-1200:], crash=True))
         if rc != 0 and not (stats and not stats['ok']):
             # crashed (sanitizer / assertion / signal): pick up the case being executed
             cur = os.path.join(WORK, 'pbt-%s-%d' % (prop_arg or prop, p.pid), 'current.case')
@@ -233,6 +235,81 @@ def run_pbt_shards(prop, bins, n_total, size, shards, tier, extra_env=None, prop
         d = os.path.join(WORK, 'pbt-%s-%d' % (prop_arg or prop, p.pid))
         shutil.rmtree(d, ignore_errors=True)
     return merged
+
+def run_batch_shards(prop, bins, paths, shards, tier, extra_env=None, prop_arg=None):
+    """Runs saved / enumerated case files through the replay binary (--batch) in `shards` processes; merged stats like run_pbt_shards."""
+    os.makedirs(WORK, exist_ok=True)
+    merged = {'evaluations': 0, 'discards': 0, 'nt': set(), 'tags': {}, 'counters': {}, 'known': {}, 'samples': [], 'fails': [], 'nt_rule': ''}
+    if not paths:
+        return merged
+    shards = max(1, min(shards, len(paths)))
+    opens = ' '.join(k['id'] for k in open_findings())
+    procs = []
+    for i in range(shards):
+        part = paths[i::shards]
+        lst = os.path.join(WORK, 'list-%s-%d-%d.txt' % (prop, os.getpid(), i))
+        st = os.path.join(WORK, 'bstats-%s-%d-%d.json' % (prop, os.getpid(), i))
+        with open(lst, 'w') as f:
+            f.write('\n'.join(part) + '\n')
+        if os.path.exists(st):
+            os.remove(st)
+        env = base_env({'VERIF_TIER': tier, 'VERIF_OPEN_FINDINGS': opens})
+        if extra_env:
+            env.update(extra_env)
+        cmd = [bins['replay'], '--batch', lst, st] + ([prop_arg or prop])
+        p = subprocess.Popen(cmd, stdout=subprocess.PIPE, stderr=subprocess.STDOUT, text=True, errors='replace', env=env)
+        procs.append((p, st, lst))
+    for p, st, lst in procs:
+        out, _ = p.communicate()
+        rc = p.returncode
+        stats = None
+        if os.path.exists(st):
+            try:
+                with open(st) as f:
+                    stats = json.load(f)
+            except Exception:
+                stats = None
+            os.remove(st)
+        os.remove(lst)
+        if stats:
+            merged['evaluations'] += stats['evaluations']; merged['discards'] += stats['discards']
+            merged['nt'].update(stats['nt_keys'])
+            for k, v in stats['tags'].items():
+                merged['tags'][k] = merged['tags'].get(k, 0) + v
+            for k, v in stats['counters'].items():
+                merged['counters'][k] = merged['counters'].get(k, 0) + v
+            for k, v in stats['known'].items():
+                merged['known'][k] = merged['known'].get(k, 0) + v
+            if len(merged['samples']) < 4:
+                merged['samples'] += stats['samples'][:2]
+            merged['nt_rule'] = stats.get('nt_rule', '')
+            if not stats['ok'] and stats.get('fail_case') and os.path.exists(stats['fail_case']):
+                with open(stats['fail_case']) as f:
+                    merged['fails'].append(dict(text=f.read(), msg=stats['fail_msg'], crash=False))
+        if rc != 0 and not (stats and not stats['ok']):
+            cur = os.path.join(WORK, 'batch-%d' % p.pid, 'current.case')
+            text = None
+            if os.path.exists(cur):
+                with open(cur) as f:
+                    text = f.read()
+            tail = '\n'.join(out.splitlines()[-40:])
+            merged['fails'].append(dict(text=text, msg='process exit %s: %s' % (rc, tail[-1500:]), crash=True))
+        shutil.rmtree(os.path.join(WORK, 'batch-%d' % p.pid), ignore_errors=True)
+    return merged
+
+def merge_stats(a, b):
+    a['evaluations'] += b['evaluations']; a['discards'] += b['discards']; a['nt'].update(b['nt'])
+    for key in ('tags', 'counters', 'known'):
+        for k, v in b[key].items():
+            a[key][k] = a[key].get(k, 0) + v
+    a['samples'] = (a['samples'] + b['samples'])[:6]
+    a['fails'] += b['fails']
+    if not a.get('nt_rule'):
+        a['nt_rule'] = b.get('nt_rule', '')
+    return a
+
+def corpus_cases(prop):
+    return sorted(glob.glob(os.path.join(VERIF, 'corpus', prop, '*.case')))
 
 def finish(prop, tier, level, res, cov, t0, floor=2, assumptions=None):
     """Prints KNOWN-FINDING / VIOLATION lines, writes evidence and returns the exit status."""
@@ -263,7 +340,7 @@ def finish(prop, tier, level, res, cov, t0, floor=2, assumptions=None):
     return 0
 
 def generic_pbt(prop, tier, n_quick, n_thorough, size_quick=100, size_thorough=100, level='exploration', floor=20, flavour='asan',
-                assumptions=None, shards_quick=8, shards_thorough=16, prop_arg=None, extra_cov=None, extra_env=None):
+                assumptions=None, shards_quick=8, shards_thorough=16, prop_arg=None, extra_cov=None, extra_env=None, extra_cases=None):
     t0 = time.time()
     res = Result()
     try:
@@ -275,6 +352,11 @@ def generic_pbt(prop, tier, n_quick, n_thorough, size_quick=100, size_thorough=1
     size = size_thorough if tier == 'thorough' else size_quick
     shards = shards_thorough if tier == 'thorough' else shards_quick
     m = run_pbt_shards(prop, bins, n, size, shards, tier, extra_env=extra_env, prop_arg=prop_arg)
+    saved = corpus_cases(prop) + list(extra_cases or [])
+    if saved:
+        mb = run_batch_shards(prop, bins, saved, shards, tier, extra_env=extra_env, prop_arg=prop_arg)
+        merge_stats(m, mb)
+        extra_cov = dict(extra_cov or {}); extra_cov['saved_or_enumerated_cases'] = len(saved)
     opens = ' '.join(k['id'] for k in open_findings())
     env = {'VERIF_TIER': tier, 'VERIF_OPEN_FINDINGS': opens}
     if extra_env:
@@ -290,6 +372,12 @@ def generic_pbt(prop, tier, n_quick, n_thorough, size_quick=100, size_thorough=1
         confirm_and_report(res, prop, bins['replay'], f['text'], f['msg'], f['crash'], env)
     for k, v in m['known'].items():
         res.known[k] = res.known.get(k, 0) + v
+    res_tags = [k for k in m['tags'] if k.startswith('res:')]
+    if res_tags:
+        extra_cov = dict(extra_cov or {}); extra_cov['residues_covered'] = len(res_tags)
+        extra_cov['residues_missing'] = sorted(set(range(512)) - set(int(k[4:]) for k in res_tags))
+        for k in res_tags:
+            del m['tags'][k]
     cov = {
         'evaluations': m['evaluations'], 'distinct_nontrivial': len(m['nt']), 'rule': m['nt_rule'],
         'samples': m['samples'][:4], 'case_classes': m['tags'], 'discards': m['discards'], 'counters': m['counters'],
